@@ -95,6 +95,16 @@ def loop_programs():
     P.append(([C(0, 1, 1), C(1, 1, 5), C(0, 1, 2), C(0, 1, 2), C(1, 1, 3, H(2)), C(1, 2, 1), C(0, 1, 2), C(5, 1, 4), C(0, 1, 3, H(2))], ""))
     P.append(([C(0, 8, 8), C(5, 1, 4), C(0, 8, 9), C(1, 1, 5), C(1, 1, 1)], ""))
     P.append(([C(0, 1, 1), C(5, 1, 7), C(0, 1, 2), C(1, 1, 9), C(5, 1, 9), C(1, 1, 3), C(5, 1, 3), C(1, 1, 1)], ""))
+    # renumbering: every arrangement of a write-only stack w and a selected stack s above 3 (and two of each),
+    # written and selected in either order, then read twice (the second read sees what lies underneath)
+    for w in (4, 5, 6, 7, 9):
+        for sel in (4, 5, 6, 7, 12):
+            if sel == w:
+                continue
+            P.append(([C(0, 65, 1), C(1, 1, w), C(0, 66, 1), C(5, 1, sel), C(1, 1, 1), C(1, 1, 1)], ""))
+            P.append(([C(0, 66, 1), C(5, 1, sel), C(5, 1, 3), C(0, 65, 1), C(1, 1, w), C(5, 1, sel), C(1, 1, 1), C(1, 1, 1)], ""))
+    P.append(([C(0, 65, 1), C(1, 1, 4), C(0, 67, 1), C(1, 1, 8), C(0, 66, 1), C(5, 1, 6), C(5, 1, 3), C(0, 68, 1), C(5, 1, 5),
+               C(1, 1, 1), C(1, 1, 1), C(5, 1, 6), C(1, 1, 1), C(1, 1, 1)], ""))
     # unencodable output before / after the cut
     P.append(([C(0, 65, 1), C(1, 1, 1), C(0, 1400, 40), C(1, 1, 1)], ""))
     P.append(([C(5, 1, 0), C(1, 1, 3), C(5, 1, 3), C(0, 1400, 40), C(1, 1, 1)], "q\n"))
@@ -120,14 +130,14 @@ def check_c02(pid, tier, seed, replay):
         cases, n = mc_opt(ck, slice_, ml if not (slice_ == "opt1" and not quick) else 3, steps, dump=True)
         # (R) every program of the slice through the real binary at -O0, -O1 and -O2
         sub = os.path.join(os.path.dirname(cases), "bin_cases.json")
-        cap = 3000 if quick else 400000
+        cap = 1500 if quick else 400000
         # programs still running at the step bound (mostly non-terminating loops) cost a time-out per run:
         # they get a short time-out and, in the quick tier, a smaller sample
         all_lines = [l for l in open(cases).read().split("\n") if l.strip()]
         looping = [l for l in all_lines if '"ending":"running"' in l]
         ending = [l for l in all_lines if '"ending":"running"' not in l]
         pick = ending if len(ending) <= cap else rng.sample(ending, cap)
-        lcap = 150 if quick else 5000
+        lcap = 80 if quick else 5000
         lpick = looping if len(looping) <= lcap else rng.sample(looping, lcap)
         if len(pick) == len(ending) and len(lpick) == len(looping):
             ck.cov["exhaustive"] = True
@@ -152,7 +162,7 @@ def check_c02(pid, tier, seed, replay):
         mc_opt(ck, "opt2", 3, 14, invs=(w,), expect_violation=w)
     mc_opt(ck, "opt1", 3, 12, invs=("Reach_SharedSlotUsed",), expect_violation="Reach_SharedSlotUsed")
     # (T) loops beyond the real budget, reads in the middle, exits, shared slots ...
-    gen = M.gen_cases(rng, 250 if quick else 5000)
+    gen = M.gen_cases(rng, 180 if quick else 5000)
     nfixed = len(M.gen_cases(random.Random(0), 0))
     # the fixed families (loops of 98..202 rounds ...) need a long reference run; the generated programs a shorter one
     tcases = [{"prog": p, "input": M.cps(i)} for p, i in loop_programs()] + gen[:nfixed]
@@ -168,7 +178,7 @@ def check_c02(pid, tier, seed, replay):
     tcases = tcases + gen[nfixed:]
     # label / conditional jump / return-jump stress without any I/O stack: level 2 pre-executes these
     # completely (or up to its budget), so every jump rule is exercised inside the speculation
-    rj = [{"prog": M.retjump_soup(rng, rng.randint(6, 14)), "input": []} for _ in range(110 if quick else 3000)]
+    rj = [{"prog": M.retjump_soup(rng, rng.randint(6, 14)), "input": []} for _ in range(80 if quick else 3000)]
     rj += [{"prog": M.fwdjump_family(rng), "input": []} for _ in range(40 if quick else 1000)]
     cpath3 = os.path.join(work, "cases_rj.json")
     M.write_cases(cpath3, rj)
@@ -176,7 +186,7 @@ def check_c02(pid, tier, seed, replay):
     M.validate_traces(ck, obs, 14, classify_c02, "T-retjump")
     tcases = tcases + rj
     ck.cov["vacuity"]["T_programs"] = len(tcases)
-    mechanism_binding(ck, tcases[:400 if quick else 4000])
+    mechanism_binding(ck, tcases[:250 if quick else 4000])
     ck.cov["rule"] = "M: HyOptimize refines HyMachine on every program of the slices; R: those programs through `hyeong run -O0/-O1/-O2`; T: loop/IO program families and seeded structured programs"
     return ck.finish()
 
